@@ -24,7 +24,7 @@ UNIT = dict(
             ("sub", "R6-ready", r"futures::future::poll_fn\(\|cx\| (\w+)\.poll_ready\(cx\)\)\s*\.await", r"\1.vx_ready(Tracked(tr))", -1),
             ("R4",), ("R3",),
             ("sub", "R9-paths", r"tokio::time::(sleep\w*)", r"\1", -1),
-            ("sub", "literal-types", r"let mut attempt = 0;", "let mut attempt: usize = 0;", 1),
+            ("sub", "literal-types", r"let mut attempt(?:: usize)? = 0;", "let mut attempt: usize = 0;", 1),
             ("addarg", ["call", "try_withdraw", "deposit"], TR, 3),
             ("loops", {0: """invariant
                     tr.created && tr.unguarded == 0,
